@@ -51,6 +51,7 @@ OpSeq == << "ParseQuery", "ParseStatement", "ParseExpr", "QuoteString", "QuoteId
             "String", "Clone", "CloneExpr", "Walk", "WalkFunc", "Eval", "EvalBool", "EvalType", "Reduce",
             "StmtReduce", "RewriteFields", "ColumnNames", "RequiredPrivileges", "ConditionExpr", "HasWildcard",
             "FieldExprByName", "FieldNames", "Measurements", "ExprNames", "TimeAscending",
+            "ParserReask", "RewriteFieldsUse",
             "GroupByInterval", "GroupByOffset" >>
 NOps == Len(OpSeq)
 AllOps == {OpSeq[i] : i \in 1..NOps}
@@ -58,14 +59,14 @@ HypOps == {"HypBufferedSanitize"}
 
 Kind(op) ==
   IF op \in {"ParseQuery", "ParseStatement", "ParseExpr", "QuoteString", "QuoteIdent", "IdentNeedsQuotes",
-             "FormatDuration", "ParseDuration", "Sanitize", "Scan", "ScanString"} THEN "indep"
+             "FormatDuration", "ParseDuration", "Sanitize", "Scan", "ScanString", "ParserReask"} THEN "indep"
   ELSE IF op \in {"GroupByInterval", "GroupByOffset"} THEN "control"
   ELSE IF op \in HypOps THEN "hyp"
   ELSE "ast"
 
 \* the verb of the property text under which the operation falls
 Verb(op) ==
-  CASE op \in {"ParseQuery", "ParseStatement", "ParseExpr", "ParseDuration", "Scan", "ScanString"} -> "parse"
+  CASE op \in {"ParseQuery", "ParseStatement", "ParseExpr", "ParseDuration", "Scan", "ScanString", "ParserReask"} -> "parse"
     [] op \in {"QuoteString", "QuoteIdent", "IdentNeedsQuotes"} -> "quote"
     [] op = "FormatDuration" -> "format"
     [] op = "Sanitize" -> "sanitize"
@@ -74,7 +75,7 @@ Verb(op) ==
     [] op \in {"Walk", "WalkFunc"} -> "walk"
     [] op \in {"Eval", "EvalBool", "EvalType"} -> "evaluate"
     [] op \in {"Reduce", "StmtReduce", "ConditionExpr"} -> "reduce"
-    [] op \in {"RewriteFields", "HasWildcard"} -> "expand wildcards on"
+    [] op \in {"RewriteFields", "HasWildcard", "RewriteFieldsUse"} -> "expand wildcards on"
     [] op \in {"ColumnNames", "FieldExprByName", "FieldNames", "Measurements", "ExprNames", "TimeAscending"} -> "query names"
     [] op = "RequiredPrivileges" -> "query privileges"
     [] OTHER -> "(not in the property)"
@@ -109,6 +110,10 @@ Footprint(op) ==
     [] op = "ConditionExpr"     -> <<R("ast.Condition"), R("datePatterns"), Lc>>
     [] op = "StmtReduce"        -> WholeAst \o <<Rn(Memo), R("datePatterns"), Lc>>   \* Clone, then Reduce on the clone
     [] op = "RewriteFields"     -> WholeAst \o <<Rn(Memo), Lc, Lc>>                  \* Clone, then everything on the clone
+    \* the re-written statement is the caller's: window, limit and time fields are set on it (all local)
+    [] op = "RewriteFieldsUse"  -> WholeAst \o <<Rn(Memo), Lc, Lc, Lc, Lc>>
+    \* a parser asked again at the end of its input, while a second parser exists
+    [] op = "ParserReask"       -> <<Lc, R("Language"), R("keywords"), Lc, Lc, R("Language"), Lc>>
     [] op = "ColumnNames"       -> <<R("ast.Fields"), R("ast.rest"), Lc>>
     [] op = "RequiredPrivileges" -> <<R("ast.Sources"), R("ast.rest"), Lc>>
     [] op = "HasWildcard"       -> <<R("ast.Fields"), R("ast.Dimensions")>>
